@@ -619,7 +619,7 @@ func c09Shared(r *hx.Run, raws [][]byte) {
 		m, err := abi.QuoteToProto(append([]byte{}, raw...))
 		q, ok := m.(*pb.QuoteV4)
 		if err != nil || !ok {
-			panic("base quote does not parse")
+			continue // a parser that refuses this well-formed quote is reported by the parse case of the same bytes
 		}
 		for fi, f := range bytesFields(q) {
 			if len(*f) == 0 {
